@@ -38,6 +38,8 @@ def run(ctx, chk):
     chk.rule("K8", "the worker's epoll set is changed by the control path's registration update only (C11/T3 writers)")
     c11.run_on(fb, Renamed(chk, {"T1": "K5", "T2": "K6", "T4": ("K7", lambda k: "consume-only-when-active" in k),
                                  "T3": ("K8", lambda k: "writer" in k)}))
+    from . import xlist
+    xlist.apply("C12", fb, chk)
     n = lambda r: len([i for i in chk.instances if i[0] == r])
     chk.floor("K1", n("K1"), 2)
     chk.floor("K2", n("K2"), 4)
